@@ -314,6 +314,16 @@ Theorem C01_result_redirect_none : forall h matches pr, In 0 pr -> forall url st
 Proof. exact engine_redirect_none. Qed.
 Print Assumptions C01_result_redirect_none.
 
+(* ... and in full (since /repo 8ebf406 ties are broken by resource name, so the choice is a
+   function of the set of matching redirect rules): the redirect IS the C13 answer over exactly the
+   redirect rules that match, rule by rule *)
+Theorem C01_result_redirect : forall h matches pr, In 0 pr -> forall url st L T, id_inj L -> TG h matches pr L ->
+  forall mr fc,
+  r_redirect (engine_check matches pr true url st mr fc (tags_with_set h (blocker_new h L) T))
+  = C13_Model.redirect_of st (spec_redirects matches L).
+Proof. exact engine_redirect_eq. Qed.
+Print Assumptions C01_result_redirect.
+
 (* CSP = the same directive set as the C15 merge over exactly the active csp rules that match *)
 Theorem C01_result_csp : forall h matches pr, In 0 pr -> forall rtype L T, id_inj L -> TG h matches pr L ->
   C15_Model.same_policy (engine_csp matches pr rtype (tags_with_set h (blocker_new h L) T))
